@@ -63,6 +63,10 @@ def cases(tier, salts):
                     if bnd:
                         cfg["lo"], cfg["hi"] = lo.tolist(), hi.tolist()
                     base.append(("convex/" + sname, cfg))
+        # deterministic modes of the broad option bank (everything not documented as using random directions)
+        if salt == 0 or tier == "thorough":
+            for name, cfg in cfgs.broad_cfgs(salt=salt, exclude=("random",), probs=("nzr",), budgets=(30,), reg_budgets=(8,)):
+                base.append(("broad_" + name, cfg))
         for name, cfg in base:
             out.append({"name": name, "cfg": cfg})
     return out
